@@ -232,6 +232,13 @@ func (g *c17Engine) run(tp *toolPlan) (*toolVerdict, map[string]int, error) {
 		return &toolVerdict{Class: "hang", Key: "hang", Detail: "the tool did not finish within 120 s"}, stats, nil
 	}
 	if p.Exit != 0 {
+		for _, sign := range []string{"dial tcp", "no such host", "connection refused", "network is unreachable", "proxyconnect", "lookup raw.githubusercontent.com", "Temporary failure in name resolution"} {
+			if strings.Contains(p.Stderr, sign) {
+				// the tool tried the real network: it does not fetch through http.DefaultTransport any more,
+				// so the simulated upstream cannot reach it - nothing can be decided, and nothing is alleged
+				return nil, nil, Troublef("SEAM-BYPASSED: the tool did not fetch through http.DefaultTransport (%s); C17 cannot be decided for this tree by simulation", firstLine(p.Stderr))
+			}
+		}
 		return &toolVerdict{Class: "exit", Key: "exit", Detail: fmt.Sprintf("the tool failed (exit %d) on delivered upstream files: %s", p.Exit, tail(p.Stderr, 4))}, stats, nil
 	}
 	ents, _ := os.ReadDir(wl)
